@@ -126,6 +126,13 @@ func makeRemoteSource(sourceType string, u *url.URL, subPath string) (RemoteSour
 	}
 	u = canon
 
+	// A doubled slash separates a package address from a sub-path, so a
+	// package whose own URL path contains one cannot be written down: its
+	// string would be read back as a shorter package with a sub-path.
+	if strings.Contains(u.EscapedPath(), "//") {
+		return RemoteSource{}, fmt.Errorf("URL path must not contain a doubled slash, which would begin a sub-path")
+	}
+
 	// The per-type rules below read the query string through url.URL.Query,
 	// which silently drops pairs it cannot parse (such as ones containing a
 	// semicolon). Refuse such a query string on every route, so that an
